@@ -34,7 +34,7 @@ DEFAULT_PROFILE = {
     "p_sstream": 0.25, "p_cstream": 0.15, "p_bidi": 0.15, "p_lro": 0.3, "p_raw_op": 0.08,
     "p_http": 0.9, "p_signature": 0.7, "p_routing": 0.25, "p_keyword_rpc": 0.08,
     "p_service_config": 0.8, "p_yaml": 0.3, "p_reserved_field": 0.08, "p_two_services": 0.25,
-    "p_foreign_request": 0.1, "p_shuffle_numbers": 0.2, "p_additional_binding": 0.25, "p_param_name_collision": 0.0, "p_stream_of_empty": 0.06,
+    "p_foreign_request": 0.1, "p_shuffle_numbers": 0.2, "p_additional_binding": 0.25, "p_param_name_collision": 0.0, "p_stream_of_empty": 0.06, "p_stream_routing": 0.0, "p_routing_name_clash": 0.0,
     "p_auto_populate": 0.0, "p_google_api_ns": 0.0, "sig_variants": False, "p_multi_var_path": 0.0, "mixin_variants": False, "p_add_iam_methods": 0.0, "p_equal_sort_keys": 0.0, "p_reserved_path_var": 0.0, "p_local_empty": 0.0, "p_same_method_two_services": 0.0, "p_required_enum": 0.0, "p_custom_http_pattern": 0.0, "p_real_api": 0.04, "p_nested_name_ties": 0.15, "p_double_star_path": 0.0, "p_value_fields": 0.0, "p_mixed_foreign_io": 0.0, "common_file_names": ["resources"],
     "transports": ["grpc", "grpc+rest", "grpc+rest", "rest"],
     "p_numeric_enums": 0.3,
@@ -457,6 +457,12 @@ def _gen_methods(cx, pkg, main, svc, noun, res, enums, msgs):
             m["signatures"] = [f"{low},update_mask"]
         if cx.chance("p_routing"):
             m["routing"] = gen_routing(rng, res, field=f"{low}.name")
+            if cx.chance("p_routing_name_clash"):
+                # one rule routes the nested `x.name` AND an unrelated flat field `x_name` (equal once dots become underscores)
+                req_m = next(mm for mm in main["messages"] if mm["name"] == f"Update{noun}Request")
+                req_m["fields"].append({"name": f"{low}_name", "number": 7, "type": "string"})
+                extra = {"field": f"{low}_name", "path_template": "{flat_id=**}"} if rng.random() < 0.5 else {"field": f"{low}_name"}
+                m["routing"] = (m["routing"] + [extra]) if rng.random() < 0.5 else ([extra] + m["routing"])
         svc["methods"].append(m)
 
     if cx.chance("p_delete"):
@@ -596,8 +602,15 @@ def _gen_methods(cx, pkg, main, svc, noun, res, enums, msgs):
     if cx.chance("p_cstream") and _unique_method(svc, f"Upload{noun}s"):
         _msg(main, f"Upload{noun}sSummary", [{"name": "count", "number": 1, "type": "int32"},
                                               {"name": "names", "number": 2, "type": "string", "repeated": True}])
-        svc["methods"].append({"name": f"Upload{noun}s", "input": P + "." + noun,
-                               "output": f"{P}.Upload{noun}sSummary", "client_streaming": True})
+        um = {"name": f"Upload{noun}s", "input": P + "." + noun,
+              "output": f"{P}.Upload{noun}sSummary", "client_streaming": True}
+        if cx.chance("p_stream_routing"):
+            # a client-streaming RPC that nevertheless carries an http rule with a path variable and/or a routing
+            # annotation: no single request exists when the call starts, so no routing value can be sent
+            um["http"] = {"verb": "post", "path": f"{pre}/{{name={wild}}}:upload", "body": "*"}
+            if rng.random() < 0.6:
+                um["routing"] = gen_routing(rng, res)
+        svc["methods"].append(um)
 
     if cx.chance("p_bidi") and _unique_method(svc, f"Sync{noun}s"):
         svc["methods"].append({"name": f"Sync{noun}s", "input": P + "." + noun,
@@ -1060,6 +1073,26 @@ def gen_mixin_yaml(cx, spec, host, need_ops):
                 s["methods"].append({"name": n, "input": f"{P}.{n}Request", "output": out,
                                      "http": {"verb": "get", "path": "/v1/{name=own/*}"}, "own_mixin_name": True})
                 y["http"]["rules"].append({"selector": f"{fs['package']}.{s['name']}.{n}", "get": "/v1/{name=own/*}:viaYaml"})
+    # the YAML of a real API lists the API's OWN services under `apis` too
+    own = [(fs, s) for fs in spec["files"] for s in fs.get("services", ())]
+    if rng.random() < 0.6:
+        if rng.random() < 0.35 and own:
+            # naming coincidence: an own service whose SHORT name is that of a mixin API (acme.x.v1.Operations); only the
+            # fully-qualified google.* names switch a mixin on
+            fs, s = own[-1]
+            short = rng.choice(["Operations", "Locations"])      # (IAMPolicy: the harness's own snake-casing of acronyms differs)
+            if all(s2["name"] != short for _, s2 in own):
+                old_name = s["name"]
+                s["name"] = short
+                for coll in (spec.get("service_config") or {}).get("methodConfig", []):
+                    for nm in coll.get("name", []):
+                        if nm.get("service") == fs["package"] + "." + old_name:
+                            nm["service"] = fs["package"] + "." + short
+                for r in y["http"]["rules"]:
+                    if r["selector"].startswith(fs["package"] + "." + old_name + "."):
+                        r["selector"] = fs["package"] + "." + short + "." + r["selector"].rsplit(".", 1)[1]
+        for fs, s in own:
+            y["apis"].insert(rng.randrange(len(y["apis"]) + 1), {"name": fs["package"] + "." + s["name"]})
     rng.shuffle(y["http"]["rules"])
     if not y["apis"]:
         del y["apis"]
